@@ -318,9 +318,8 @@ static void run_empty() {
         out << "perm.size=" << perm.size();
     }, 20.0);
     vf::count(std::string("empty_matrix_cuthill_mckee_outcome_") + r.kind_name());
-    // n = 0 is outside the property (a 0x0 system is not an input the library is specified for; amg never
-    // builds an empty level): the outcome is recorded as a counter, not judged.
-    if (false) vf::fail("cuthill_mckee.empty_matrix", key, std::string("cuthill_mckee::get on a 0x0 matrix with an empty perm vector: outcome ") + r.kind_name() + " code " + std::to_string(r.code) + " " + r.text + " " + r.err.substr(0, 300));
+    // n = 0 does occur: a per-process preconditioner on an MPI rank that owns no rows (see C12, block_preconditioner)
+    if (r.kind != fr::OK || r.text != "perm.size=0") vf::fail("cuthill_mckee.empty_matrix", key, std::string("cuthill_mckee::get on a 0x0 matrix with an empty perm vector: outcome ") + r.kind_name() + " code " + std::to_string(r.code) + " " + r.text + " " + r.err.substr(0, 300));
     // the solver itself on the 0x0 matrix (no pivot exists, so nothing can be a zero pivot; the solution is the empty vector)
     fr::Result r2 = fr::run([&](fr::Out &out) {
         backend::crs<double, ptrdiff_t, ptrdiff_t> A; A.set_size(0, 0, true); A.set_nonzeros(0);
@@ -329,7 +328,7 @@ static void run_empty() {
         out << "solved";
     }, 20.0);
     vf::count(std::string("empty_matrix_skyline_lu_outcome_") + r2.kind_name());
-    if (false) vf::fail("skyline_lu.empty_matrix", key, std::string("skyline_lu on a 0x0 matrix: outcome ") + r2.kind_name() + " code " + std::to_string(r2.code) + " " + r2.text + " " + r2.err.substr(0, 300));
+    if (r2.kind != fr::OK || r2.text != "solved") vf::fail("skyline_lu.empty_matrix", key, std::string("skyline_lu on a 0x0 matrix: outcome ") + r2.kind_name() + " code " + std::to_string(r2.code) + " " + r2.text + " " + r2.err.substr(0, 300));
 }
 
 int main(int argc, char **argv) {
